@@ -19,6 +19,9 @@ def gen(args):
     for t in core.timed(range(ncases)):
         n, m = int(rng.integers(4, 8)), int(rng.integers(2, 6))
         Xi = P.centred_lattice(rng, n, m, 4)
+        if rng.random() < 0.15:
+            n = m = int(rng.integers(4, 7))
+            Xi = P.symmetric_centred(rng, n)              # a square symmetric data matrix is still a data matrix
         p = int(rng.integers(1, 3))
         Yi = P.centred_lattice(rng, n, p, 4)
         if rng.random() < 0.15:
